@@ -8,6 +8,9 @@ LEAN = os.path.join(VERIF, 'lean')
 GO = os.path.join(VERIF, 'go')
 NCPU = os.cpu_count() or 4
 ALLOWED_AXIOMS = {'propext', 'Classical.choice', 'Quot.sound'}
+# extra build tags tried for the harness: `promhook` = ee/plugins/prometheus carries VerifSetLicenseBypass
+# (repo_hooks/prometheus_license.patch); without it kind=prom covers the licence-off half only
+OPTIONAL_TAGS = ['promhook']
 GOENV = dict(os.environ, GOFLAGS='', GOPROXY='off', GOSUMDB='off', GOTOOLCHAIN='local', GOWORK=os.path.join(GO, 'go.work'))
 
 TRUSTED_BASE = [
@@ -98,7 +101,14 @@ def build_go(race=False):
             targets.append(('harness-race', ['-tags', 'verif', '-race']))
         for name, flags in targets:
             pkg = './harness' if name.startswith('harness') else './extract'
-            rc, o, e = sh(['go', 'build'] + flags + ['-o', os.path.join(GO, 'bin', name), pkg], cwd=GO, env=GOENV, timeout=900)
+            rc = 1
+            if name.startswith('harness') and OPTIONAL_TAGS:
+                # harness files guarded by an optional tag use a hook of the repository that may not
+                # be there yet (repo_hooks/*.patch): build with them if that compiles, else without
+                f2 = [x if not x.startswith('verif') else x + ',' + ','.join(OPTIONAL_TAGS) for x in flags]
+                rc, o, e = sh(['go', 'build'] + f2 + ['-o', os.path.join(GO, 'bin', name), pkg], cwd=GO, env=GOENV, timeout=900)
+            if rc != 0:
+                rc, o, e = sh(['go', 'build'] + flags + ['-o', os.path.join(GO, 'bin', name), pkg], cwd=GO, env=GOENV, timeout=900)
             outs.append(o + e)
             if rc != 0:
                 return False, '\n'.join(outs)
@@ -268,7 +278,7 @@ def shrink(ctx, case_line, differs):
     return cur
 
 
-def compare(ctx, rows, proj, what, oracle=None, nontrivial=None, max_report=3):
+def compare(ctx, rows, proj, what, oracle=None, nontrivial=None, max_report=3, oracle_is_property=False):
     """diff projected results; group disagreements by operator; shrink and report.
     `proj(resdict) -> comparable`, `oracle(case_line, go_resdict) -> None | message`."""
     bad = {}
@@ -282,7 +292,7 @@ def compare(ctx, rows, proj, what, oracle=None, nontrivial=None, max_report=3):
         if len(ctx.samples) < 4 and (ctx.evaluations % 9973 == 1):
             ctx.samples.append({'case': c, 'impl': g, 'model': l})
         if proj(gd) != proj(ld):
-            op = re.search(r'\bop=(\S+)', c)
+            op = re.search(r'\bops?=(\S+)', c)
             bad.setdefault(op.group(1) if op else '?', []).append((c, g, l))
         else:
             ctx.traces_validated += 1
@@ -300,9 +310,15 @@ def compare(ctx, rows, proj, what, oracle=None, nontrivial=None, max_report=3):
         small = shrink(ctx, c, lambda gg, ll: proj(parse_res(gg)) != proj(parse_res(ll)))
         res = replay_cases(ctx, [small])
         sg, sl = (res[0][1], res[0][2]) if res else (g, l)
+        # with a direct oracle for the property: the disagreement is a concrete failing input only if the
+        # implementation's own result violates the property on it; otherwise the correspondence is broken
+        # but no failing input was found
+        holds = oracle_is_property and oracle is not None and oracle(small, parse_res(sg)) is None
         ctx.violation(f'{what}: implementation and model disagree for {op} ({len(lst)} cases)',
                       f'# {what}: implementation differs from the Lean model (which is proved equal to the specification)\n'
-                      f'{small}\n# implementation: {sg}\n# model/spec:     {sl}\n# replay: ./check {ctx.prop} --replay <this file>\n')
+                      f'{small}\n# implementation: {sg}\n# model/spec:     {sl}\n# replay: ./check {ctx.prop} --replay <this file>\n' +
+                      ('# the implementation result on this input still satisfies the property itself: correspondence broken, no failing input found\n' if holds else ''),
+                      no_input=holds)
     for (op, kind), lst in orc.items():
         if n >= max_report * 2:
             break
@@ -321,7 +337,7 @@ def load_known(prop):
     if os.path.exists(path):
         for line in open(path):
             line = line.strip()
-            if line and not line.startswith('#'):
+            if line.startswith('{'):
                 d = json.loads(line)
                 if d.get('property') == prop:
                     out.append(d)
